@@ -23,6 +23,8 @@ struct Config {
     // PCT: initial priorities per thread id (mod size) and priority change points (decision numbers)
     std::vector<uint32_t> prio;
     std::vector<uint64_t> change_points;
+    // ordinals (0-based, counted over all condition waits of the run) of waits that return spuriously, as POSIX allows
+    std::vector<uint32_t> spurious_waits;
     uint64_t max_decisions = 50000;
     uint64_t max_virtual_ns = 0; // 0 = unlimited; exceeding it is reported as a hang (kind 3)
     unsigned spin_limit = 64; // consecutive decisions of one thread while others are runnable
